@@ -3,6 +3,8 @@ mod smoke;
 mod report;
 mod rustharness;
 mod rustcheck;
+mod inproc;
+mod c12;
 pub mod compile;
 
 fn opt(args: &[String], k: &str) -> Option<String> {
@@ -69,6 +71,7 @@ fn main() {
             let seed: u64 = opt(&args, "--seed").and_then(|s| s.parse().ok()).or_else(|| std::env::var("VERIF_SEED").ok().and_then(|s| s.parse().ok())).unwrap_or(1);
             match prop.as_str() {
                 "C01" | "C02" | "C03" | "C04" | "C05" | "C06" | "C15" | "C17" | "C18" => rustcheck::run(&prop, &tier, seed),
+                "C12" => c12::run(&tier, seed),
                 _ => {
                     eprintln!("unknown property {prop}");
                     2
